@@ -30,6 +30,10 @@ def setup(J):
                             else:
                                 mj.pop("save_final", None); mj.pop("_first", None)
                             jobs.append(mj)
+            # deeper delay bound on the smallest scenario (the consumer side needs several hand-offs in a row to
+            # overtake the producer between two of its steps)
+            jobs.append({"id": "C17-n1-s0-m2-delay3", "prop": "C17", "kind": "stream", "mode": "delay", "delay": 3, "budget": J.budget(tier, 40, 600), "oracles": [], "events_dep": False, "force_all": -1,
+                         "args": {"n": "1", "size": "0", "max": "2"}})
             # a regular file already at the streaming path (the port used to be an ordinary output)
             for size in (1, 65537):
                 jobs.append({"id": f"C17-n1-s{size}-m2-stale", "prop": "C17", "kind": "stream", "mode": "delay", "delay": 1, "budget": J.budget(tier, 30, 200), "oracles": [], "events_dep": False, "force_all": -1,
@@ -63,5 +67,5 @@ def setup(J):
                 jobs.append(nj)
             return jobs
         return {"level": "model_checking", "stages": [stage1, stage2],
-                "rule": "real mkfifo + real bash producer/consumer under the controlled scheduler (exec seam in async mode: child exits are observed only when no controlled thread can run, so the set of exited children is a function of the state): n in {1,2} streamed items, maxConcurrentTasks in {2n, 2n+1}, payload in {0, 1, 4096, 65537, 300000} bytes, all schedules with <= 1 delay; then the history 'run again in place'; + a stale regular file at the streaming path / at the FIFO path before the run + a pass-through process noting the order of 2 streamed items + the streaming output declared with an absolute path in a new directory; oracle: consumer bytes = payload, streamed items leave the producer in arrival order, a stale file is left untouched, no regular file at the streaming path, no FIFO / temp dir left, consumer audit names the producer upstream, second run terminates (no child stuck on a FIFO, judged from /proc/<pid>/stack) and leaves the consumer's output untouched",
+                "rule": "real mkfifo + real bash producer/consumer under the controlled scheduler (exec seam in async mode: child exits are observed only when no controlled thread can run, so the set of exited children is a function of the state): n in {1,2} streamed items, maxConcurrentTasks in {2n, 2n+1}, payload in {0, 1, 4096, 65537, 300000} bytes, all schedules with <= 1 delay (smallest scenario: <= 3 delays within the budget); then the history 'run again in place'; + a stale regular file at the streaming path / at the FIFO path before the run + a pass-through process noting the order of 2 streamed items + the streaming output declared with an absolute path in a new directory; oracle: consumer bytes = payload, streamed items leave the producer in arrival order, a stale file is left untouched, no regular file at the streaming path, no FIFO / temp dir left, consumer audit names the producer upstream, second run terminates (no child stuck on a FIFO, judged from /proc/<pid>/stack) and leaves the consumer's output untouched",
                 "assumptions": ["what happens inside the kernel pipe and the two bash processes is observed, not scheduled", "a child is declared stuck when every process of its tree sleeps in fifo_open/pipe_read/pipe_write/do_wait unchanged over 4 samples (cap 20 s)", "delay-bounded (k=1), not closed"]}
